@@ -429,6 +429,18 @@ impl<S, V> LoadContractCodeCtx<'_, S, V> {
             PanicReason::ContractNotFound,
         )?;
 
+        // The alignment padding is zero, not the code that follows the copied range.
+        let length_padding = length.saturating_sub(length_unpadded);
+        if length_padding > 0 {
+            self.memory
+                .write(
+                    owner,
+                    region_start.saturating_add(length_unpadded),
+                    length_padding,
+                )?
+                .fill(0);
+        }
+
         // Update frame code size, if we have a stack frame (i.e. fp > 0)
         if self.context.is_internal() {
             let code_size_ptr =
@@ -512,6 +524,18 @@ impl<S, V> LoadContractCodeCtx<'_, S, V> {
             blob_len,
             PanicReason::BlobNotFound,
         )?;
+
+        // The alignment padding is zero, not the data that follows the copied range.
+        let length_padding = length.saturating_sub(length_unpadded);
+        if length_padding > 0 {
+            self.memory
+                .write(
+                    owner,
+                    region_start.saturating_add(length_unpadded),
+                    length_padding,
+                )?
+                .fill(0);
+        }
 
         // Update frame code size, if we have a stack frame (i.e. fp > 0)
         if self.context.is_internal() {
